@@ -109,7 +109,7 @@ func (k *kernel) alignRecursion(t filter.Trapezoid) {
 				}
 
 				if (float64(coverageA)/float64(trapAProjection))*(float64(coverageB)/float64(trapBProjection)) > 0.99 {
-					k.covered[i] = true
+					k.covered[k.slot+1+i] = true
 				}
 			}
 
